@@ -174,6 +174,8 @@ def _r3(model, res):
         raise AnalysisError('parse_criteria not found (anchor vanished)')
     m, f = pcs[0]
     fv = Func(m, f)
+    # the constant table first: it stands on its own when the symbolic run below meets a construct the interpreter cannot follow
+    _wildcard_table(model, res, m, f, fv)
     it = Interp(model)
 
     def call(interp, st):
@@ -274,7 +276,6 @@ def _r3(model, res):
                           'a criterion predicate must test the item against the criterion (operator(item, number) / fnmatch(item, pattern) / '
                           'item == value); got %s' % why, func='parse_criteria')
     res.soft_floor('criteria predicate traces', n, 6)
-    _wildcard_table(model, res, m, f, fv)
     for need in ('wildcard', 'operator', 'equality'):
         if need not in kinds and need == 'wildcard':
             verdict, why = _regex_wildcards(model, m, f)
@@ -297,6 +298,9 @@ WILDCARD_TABLE = (
     ('a.?', 'a.b', True), ('a.?', 'axb', False), ('a+?', 'a+b', True), ('a+?', 'aab', False),
     # line breaks inside a cell are ordinary characters
     ('ap?', 'app\n', False), ('ap?', 'ap\n', True), ('a*e', 'a\nle', True), ('*a', 'a\n', False),
+    # both wildcards in one criterion: a "?" next to a leading or trailing "*" is still one arbitrary character
+    ('b?r*', 'bart', True), ('b?r*', 'bear', False), ('b?r*', 'b?r', True), ('*a?', 'tuba', False), ('*a?', 'tubas', True),
+    ('?*', 'x', True), ('?*', '', False), ('*b?r*', 'xbarx', True), ('*b?r*', 'xbrx', False),
 )
 
 
